@@ -173,11 +173,19 @@ func c20Run(env *c20Env, c c20Case, mk func() vsChooser, maxSteps int) c20Case {
 		if err := s.SetCallbacks(cb); err != nil {
 			panic(err)
 		}
+		// SetCallbacks may start a (here still uncontrolled) goroutine that finds nothing to offer: let it
+		// finish before the controlled run begins (the model's `init true` is the state after it)
+		s.asyncGoroutineWg.Wait()
 	}
 	vsAddRegion(unsafe.Pointer(&s.state), 4)
 	vsAddRegion(unsafe.Pointer(&s.callbackInProcess), 4)
 	vsAddRegion(unsafe.Pointer(&s.callbackCloseState), 4)
-	tail0 := atomic.LoadInt64(env.client.queueManager.sendQueue.tail)
+	// the peer's end of this stream: a close notification (queue element or, once the stream is in fallback
+	// state, socket event) half-closes it — that is how the notification is observed
+	ss := newStream(env.server, id)
+	env.server.streamLock.Lock()
+	env.server.streams[id] = ss
+	env.server.streamLock.Unlock()
 	vs.active = true
 	// thread 0: the event loop
 	vsSpawn(func() {
@@ -228,7 +236,28 @@ func c20Run(env *c20Env, c c20Case, mk func() vsChooser, maxSteps int) c20Case {
 	if env.client.getStreamById(id) != nil {
 		inTable = 1
 	}
-	nsent := atomic.LoadInt64(env.client.queueManager.sendQueue.tail) - tail0
+	// was the peer notified?  Expected exactly when a local close completed and the peer had not closed first
+	// (decided from the trace); an expected notification is awaited generously, an unexpected one briefly.
+	peerFirst := false
+	for _, st := range steps {
+		if st.Tid == 0 && st.Ev != nil && st.Ev.Kind == vsKCAS && st.Ev.Reg == 0 && st.Ev.C == 1 {
+			peerFirst = true
+		}
+	}
+	waitNote := time.Duration(0)
+	if c.NCl > 0 || cb.closeInside > 0 {
+		waitNote = 30 * time.Millisecond
+		if atomic.LoadUint32(&s.state) == uint32(streamClosed) && !peerFirst {
+			waitNote = 3 * time.Second
+		}
+	}
+	for end := time.Now().Add(waitNote); time.Now().Before(end) && atomic.LoadUint32(&ss.state) == uint32(streamOpened); {
+		time.Sleep(200 * time.Microsecond)
+	}
+	nsent := int64(0)
+	if atomic.LoadUint32(&ss.state) != uint32(streamOpened) {
+		nsent = 1
+	}
 	c.Final = []int64{int64(atomic.LoadUint32(&s.state)), int64(atomic.LoadUint32(&s.callbackInProcess)),
 		int64(atomic.LoadUint32(&s.callbackCloseState)), inTable, int64(cb.local), int64(cb.remote), nsent}
 	c.Recv = []int{}
@@ -469,8 +498,9 @@ func c20Run(env *c20Env, c c20Case, mk func() vsChooser, maxSteps int) c20Case {
 			break
 		}
 	}
-	// leave the stream closed and clean (uncontrolled)
+	// leave both ends closed and clean (uncontrolled)
 	_ = s.Close()
+	_ = ss.Close()
 	return c
 }
 
